@@ -535,6 +535,32 @@ def check_isotherm_entry(ctx):
                     ctx.violate(core.make_violation({'check': 'isotherm-entry', 'method': 'alpha-s', 'limits': 'manual' if lim else 'automatic'},
                                                     f'alpha_s of reference*{k} + {off} (limits {lim}): slope {r["slope"]} intercept {r["intercept"]} volume {r["adsorbed_volume"]}; '
                                                     f'expected slope {k * a04}, intercept {off}, pore volume {vol}', {}, [k * a04, off, vol], [r['slope'], r['intercept'], r['adsorbed_volume']]))
+    # verbose=True (log lines and a graph) changes nothing in what is returned, in any stored representation
+    import matplotlib
+    matplotlib.use('Agg')
+    import matplotlib.pyplot as plt
+    from pygaps.characterisation.models_thickness import thickness_harkins_jura as thj
+    n_t = 1.5 * thj(p) + 0.3
+    n_b = bet_n(p, 2.0, 80.0)
+    n_d = 0.3 * c['dl'] / c['M'] * numpy.exp(-((R * T * numpy.log(1 / p)) / (6.0 * 1000)) ** 2.0) * 1000
+    vcalls = (('t_plot', lambda i_, vb: pgc.t_plot(i_, t_limits=(0.25, 0.7), verbose=vb), n_t, lambda r: (r['results'][0]['slope'], r['results'][0]['intercept'], r['results'][0]['area'])),
+              ('t_plot(automatic)', lambda i_, vb: pgc.t_plot(i_, verbose=vb), n_t, lambda r: tuple((x['slope'], x['intercept']) for x in r['results'])),
+              ('area_BET', lambda i_, vb: pgc.area_BET(i_, p_limits=(0.03, 0.31), verbose=vb), n_b, lambda r: (r['area'], r['c_const'], r['n_monolayer'], r['bet_slope'], r['bet_intercept'])),
+              ('area_langmuir', lambda i_, vb: pgc.area_langmuir(i_, p_limits=(0.03, 0.55), verbose=vb), n_b, lambda r: (r['area'], r['langmuir_const'], r['n_monolayer'])),
+              ('dr_plot', lambda i_, vb: pgc.dr_plot(i_, verbose=vb), n_d, lambda r: (r['pore_volume'], r['adsorption_potential'])),
+              ('alpha_s', lambda i_, vb: pgc.alpha_s(i_, mk(ref_n, reps[0]), reference_area='BET', t_limits=(0.4, 1.2), verbose=vb), 2.5 * ref_n + 0.3,
+               lambda r: (r['results'][0]['slope'], r['results'][0]['intercept'], r['results'][0]['area'])))
+    for mname, call_, n_, pick_ in vcalls:
+        for rep in reps:
+            quiet = core.call(call_, mk(n_, rep), False)
+            loud = core.call(call_, mk(n_, rep), True)
+            plt.close('all')
+            ev += 1
+            nt += 1
+            if quiet.ok and (not loud.ok or numpy.shape(numpy.ravel(pick_(loud.value))) != numpy.shape(numpy.ravel(pick_(quiet.value))) or core.relerr(numpy.ravel(pick_(loud.value)), numpy.ravel(pick_(quiet.value))) > 1e-12):
+                ctx.violate(core.make_violation({'check': 'isotherm-entry', 'method': mname.split('(')[0], 'what': 'verbose changes the result'},
+                                                f'{mname}(verbose=True) on an isotherm stored as {rep}: {pick_(loud.value) if loud.ok else loud.brief()[:160]} but with verbose=False {pick_(quiet.value)}',
+                                                {'rep': rep}, pick_(quiet.value), pick_(loud.value) if loud.ok else None))
     # alpha-s of a sample measured on a pressure range that does NOT contain the reducing pressure (the reference's range does)
     def mk_on(pp, nn):
         return pygaps.PointIsotherm(pressure=pp, loading=nn, material='c14s', adsorbate='N2', temperature=T, pressure_mode='relative', loading_basis='molar',
